@@ -85,7 +85,8 @@ func (g gen) uxid() string {
 	return g.pick("{uxu0}", "{uxu1}", "{uxu3}", "{uxu6}", "{uxs0}", "{uxs1}", "{uxs3}", "{unk0}", "{unk2}", "{tx1}")
 }
 func (g gen) wid() string {
-	return g.pick("{wid0}", "{wid1}", "{wid2}", "{wid0}", "{wid1}", "{wid2}", "unknown_wallet.wlt")
+	// plain, encrypted, bip44, watch-only (xpub), and a well-formed id of no wallet
+	return g.pick("{wid0}", "{wid1}", "{wid2}", "{wid3}", "{wid0}", "{wid1}", "{wid2}", "{wid3}", "unknown_wallet.wlt")
 }
 func (g gen) badWid() string {
 	return g.pick("nope.wlt", "../c28_w0.wlt", "{wid0}.bak", "c28_w0", "/etc/passwd", ".wlt", strings.Repeat("w", 300)+".wlt")
@@ -470,8 +471,8 @@ var endpoints = map[string][]endpoint{
 			// the right (or a wrong / locked / missing) wallet for a structurally mutated transaction over its own unspents
 			b := g.pick("w0two", "w0two", "w1two", "w2one", "k3one")
 			wid := map[string]string{"w0two": "{wid0}", "w1two": "{wid1}", "w2one": "{wid2}", "k3one": "{wid0}"}[b]
-			if g.r.Intn(8) == 0 {
-				wid = g.pick("{wid0}", "{wid1}", "{wid2}", "unknown_wallet.wlt")
+			if g.r.Intn(6) == 0 {
+				wid = g.pick("{wid0}", "{wid1}", "{wid2}", "{wid3}", "{wid3}", "unknown_wallet.wlt")
 			}
 			m := map[string]interface{}{"wallet_id": wid, "encoded_transaction": g.structRaw(b)}
 			if wid == "{wid1}" || g.r.Intn(10) == 0 {
@@ -504,7 +505,7 @@ var endpoints = map[string][]endpoint{
 	"/api/v2/transaction": {{method: "POST", json: func(g gen) interface{} { return g.createTxnBody() }}},
 	"/api/v1/wallet/transaction": {{method: "POST", json: func(g gen) interface{} {
 		if g.r.Intn(5) < 2 {
-			return g.coherentTxnBody(g.pick("{wid0}", "{wid1}", "{wid2}"))
+			return g.coherentTxnBody(g.pick("{wid0}", "{wid1}", "{wid2}", "{wid3}"))
 		}
 		m := g.createTxnBody()
 		m["wallet_id"] = g.maybeWeird(g.wid(), g.badWid())
@@ -694,6 +695,11 @@ func (g gen) poolConflict(emit func(string), oi int) {
 	n := 2 + g.r.Intn(2)
 	for _, v := range vs[:n] {
 		emit(httpJSON("/api/v1/injectTransaction", map[string]interface{}{"rawtx": "{raw.ds." + o.name + "." + v + "}", "no_broadcast": true}))
+	}
+	// in half of the cases the publisher then confirms ONE of the conflicting spends: the others stay in the
+	// pool as stale transactions (an input is gone) until the next pool refresh, which the API never triggers
+	if g.r.Bool() {
+		emit("block t=raw.ds." + o.name + "." + vs[g.r.Intn(n)])
 	}
 	A := "{" + o.addr + "}"
 	qs := []string{
